@@ -42,7 +42,7 @@ func (w *vW) boundInode(x uint64, ok bool) *inode.Inode {
 	ip := w.vInodeAt(x)
 	bb := verifrt.Param("bblocks", 2)
 	nblk := (ip.Size + 4095) / 4096
-	verifrt.Assume(ip.ShrinkSize-nblk <= bb)
+	verifrt.Assume(ip.ShrinkSize <= nblk || ip.ShrinkSize-nblk <= bb)
 	return ip
 }
 
